@@ -286,10 +286,55 @@ def match_known(known, prop, v):
     return None
 
 
+CHUNK_LINES = 5000
+
+
 def validate_files(ctx, fam, files):
-    allnd = os.path.join(ctx.dir, "all-%d.ndjson" % int(time.time() * 1000))
+    """validate the traces against the trace specification; big sets are cut into chunks of whole traces that are
+    validated by several TLC processes at once (every trace starts from its own Init event, so chunks are independent);
+    line numbers in the merged result count through the concatenation of all traces"""
+    stamp = int(time.time() * 1000)
+    allnd = os.path.join(ctx.dir, "all-%d.ndjson" % stamp)
     idx = concat_traces(files, allnd)
-    res = tlc_validate(ctx.sdir, fam.trace_module, fam.trace_cfg, allnd)
+    total = idx[-1][1] if idx else 0
+    if total <= CHUNK_LINES * 2:
+        return idx, tlc_validate(ctx.sdir, fam.trace_module, fam.trace_cfg, allnd)
+    os.remove(allnd)
+    chunks, cur, n = [], [], 0
+    for ent in idx:
+        cur.append(ent)
+        n += ent[1] - ent[0] + 1
+        if n >= CHUNK_LINES:
+            chunks.append(cur)
+            cur, n = [], 0
+    if cur:
+        chunks.append(cur)
+
+    def one(ci):
+        ch = chunks[ci]
+        dst = os.path.join(ctx.dir, "chunk-%d-%d.ndjson" % (stamp, ci))
+        concat_traces([e[2] for e in ch], dst)
+        r = tlc_validate(ctx.sdir, fam.trace_module, fam.trace_cfg, dst)
+        os.remove(dst)
+        return r
+
+    from concurrent.futures import ThreadPoolExecutor
+    with ThreadPoolExecutor(max_workers=max(2, min(8, (os.cpu_count() or 4) // 2))) as ex:
+        results = list(ex.map(one, range(len(chunks))))
+    res = {"rc": 0, "out": "", "viol": [], "drift": [], "info": [], "lines": total, "consumed": total, "accepted": True}
+    for ch, r in zip(chunks, results):
+        off = ch[0][0] - 1
+        for key in ("viol", "drift", "info"):
+            for v in r[key]:
+                v = list(v)
+                if len(v) > 1 and isinstance(v[1], int):
+                    v[1] += off
+                res[key].append(v)
+        if not r["accepted"] and res["accepted"]:
+            res["accepted"] = False
+            res["consumed"] = off + max(r["consumed"], 0)
+            res["out"] = r["out"]
+            res["rc"] = r["rc"]
     return idx, res
 
 
